@@ -1,31 +1,75 @@
 """C11 - batch samples never interact (level: other).
 
-Theorems (coq/C11/Batch.v) state the by-construction independence of the list-of-samples models and the
-facts about the places where the batch axis is kept while other axes are contracted / reduced.  The deciding
-evidence for the *code* is the relational differential check: a batch of B samples against B independent
-batch-size-1 copies with identical parameters, compared at every step on the real implementation."""
+Coq side (coq/C11/*.v): batch-independence theorems proved ABOUT THE FINISHED MODELS OF THE OTHER PROPERTIES (imported read-only):
+sample b of a batched run of the C03 neuron model / C04 synapse model / C05+C06 connection models / C17 layer model equals the run
+of the identically parameterised batch-1 instance on sample b's inputs, for every operation sequence those models support; the
+adaptation batch mean is shown to be the only coupling of the neurons; for the C08/C09/C18 trainer models with the sum reduction both
+update parts of a batched call / run are the sums of the per-sample parts.  Those models are tied to the code by THEIR properties'
+correspondence checks (C03, C04, C05, C06, C08, C09, C17, C18), not by this check.
+Harness side: the relational differential check on the real implementation - a batch of B samples against B independent
+batch-size-1 copies with identical parameters, compared at every step - remains the deciding evidence for the *code*."""
 from __future__ import annotations
 import os, random
 from collections import Counter
 import framework as F
 
 ID = "C11"
-GEN = ["NeuronDynamics", "NeuronAdaptation", "Trace"]   # their translatability IS the element-wise argument
+# the kernels the imported models are built from (re-translated before the obligations are rebuilt); that the neuron / trace
+# kernels translate under the element-wise subset at all is itself part of the argument (any cross-batch operation fails closed)
+GEN = ["NeuronDynamics", "NeuronAdaptation", "Trace", "Infra", "Interpolation", "Conv", "Bounding", "Stdkernels"]
 LEVEL = "other"
-TECHNIQUE = ("Coq: per-sample independence of the list-of-samples models and linearity of sum reduction (thin by construction) "
-             "+ fail-closed element-wise translation of the kernels + relational differential runs (batch B vs B batch-1 copies) "
-             "on the real implementation")
-LEVEL_TEXT = ("Level 'other': the Coq theorems are true by construction of the models (a batch is a list of samples), so they do "
-              "not by themselves say anything about the code; what carries weight is (i) that the element-wise kernels translate "
-              "under a subset that has no cross-batch operation (fail closed), and (ii) the relational check on the real code: "
-              "every step of every sample of a batched run equals the run of that sample alone in an identically parameterised "
-              "batch-1 copy (8 neurons with adaptation frozen, 4 synapses incl. delayed reads, 4 connections with/without "
-              "delays, Serial/Biclique/RecurrentSerial, 9 trainers with batch_reduction=sum: batched parts == sum of per-sample parts; "
-              "the same components with the batch size reached through the batchsz setters after warm-up at other sizes; "
-              "14 trainer configurations with sum and all hyperparameters given as per-cell overrides, several cells per trainer).")
-LEVEL_NOTE = ("Not a proof about the code. Trusted: the comparison harness (tools/impl/c11_impl.py), float64, tolerance 1e-9 "
-              "relative for continuous values (vectorised vs scalar libm paths), spikes compared exactly. Adaptation updates "
-              "(documented batch reduction) are frozen with adapt=False.")
+TECHNIQUE = ("Coq: forward-simulation proofs 'sample b of the batched run = run of the batch-1 copy on sample b' about the other "
+             "properties' models (C03 neurons, C04 synapses, C05/C06 connections with and without delays, C17 layers; induction over "
+             "operation sequences, index arithmetic of the flat batch-major layouts), 'adaptation batch mean is the only coupling' "
+             "(C03, C17), 'sum reduction: batched parts = sum of per-sample parts' (C08/C09/C18 trainer models) "
+             "+ relational differential runs (batch B vs B batch-1 copies) on the real implementation")
+LEVEL_TEXT = ("Level 'other'. PROVED IN COQ (73 obligations incl. 3 non-vacuity witnesses; coq/C11/{NeuronBatch,NeuronCoupling,SynapseBatch,ConnBatchC05,ConnBatch,"
+              "LayerBatch,LayerBatchC17,TrainerBatchStdp,TrainerBatchDelayAdj,TrainerBatchHomeo}.v), each about a model that another "
+              "property ties to the code: "
+              "(1) C03 neuron model, all 8 classes, any number type: for EVERY operation sequence (forward with any flags/inputs, "
+              "clear, train/eval, voltage/refrac/adaptation setters, in-place adaptation edits, load_state_dict) in which no forward "
+              "call runs an adaptation update, outputs and complete state of sample b after every operation = those of the batch-1 "
+              "instance on sample b's operations (neuron_batch_independent, also from the constructors); with the update running, "
+              "spikes/voltages/refracs of sample b are still the batch-1 ones and every new adaptation entry is the batch mean of "
+              "the entries the B batch-1 instances compute (neuron_forward_coupling, reals): the documented reduction is the ONLY "
+              "coupling. "
+              "(2) C04 synapse model, all 4 classes, any number type: every operation that does not raise on the batch (forward, "
+              "current/spike, current_at/spike_at/pos_/neg_current_at with per-synapse or trailing-D PER-SAMPLE selectors, delayed "
+              "and undelayed records, with/without out-of-bounds values, both write modes, clear) commutes with taking sample b "
+              "(slice of the flat batch-major storage of every record); for every operation sequence, and from the constructors "
+              "(synapse_batch_independent[_from_init]). "
+              "(3) C05 undelayed maps and C06 connection+synapse compositions (LinearDense, LinearDirect, LinearLateral, Conv2D; "
+              "undelayed branch and delayed einsum branch; syncurrent/synspike/selector/delay assignment/clear): the same, for every "
+              "operation sequence (connection_batch_independent[_from_init]); sample b of the delay selector of the batched "
+              "connection IS the selector of the batch-1 copy (connection_selector_sample: 'expanded, not mixed'). "
+              "(4) C17 layer model: Serial, Biclique, RecurrentSerial are PARAMETRIC in their components - any forward simulation "
+              "between two component instantiations lifts to every operation sequence of the three layer kinds incl. clear and "
+              "learn steps (*_run_sim, generic, axiom-free); instantiated with C17's concrete components (LinearDense+DeltaCurrent "
+              "with step delays, LIF/ALIF with adaptation frozen, built-in combine modes, transforms) and the relation 'sample b' "
+              "(*_c17_batch_independent, *_c17_outputs_are_samples). "
+              "(5) trainers, sum reduction, reals: C08/C09 (STDP, stable, triplet, MSTDP, MSTDPET; none/scalar/per-sample signals): "
+              "monitor state of sample b independent of the other samples; BOTH update parts of one call, of every step of a run and "
+              "of the accumulator = sums over b of the batch-1 parts; C18 (delay-adjusted and kernel trainers, all six) and C09 "
+              "LinearHomeostasis likewise (da_*_sum_persample, h_*_sum_persample). "
+              "Essential premise of (2)-(4): the operation does not raise on the batch - one sample's invalid selector / shape raises "
+              "for the whole batch, which is the one inherent cross-sample effect. "
+              "NOT PROVED / why still 'other': these are theorems about models; the tie of those models to the code is the "
+              "correspondence checks of C03, C04, C05, C06, C08, C09, C17, C18 (differential, bounded by their generators) and is not "
+              "re-run by this check; (4) is instantiated only with C17's own component models (the generic theorem takes the C03/C04/"
+              "C06 results as hypotheses but those models use different state representations and are not plugged into C17's "
+              "signature); binary64 is not modelled. DECIDING EVIDENCE FOR THE CODE remains the relational check on the real "
+              "implementation: every step of every sample of a batched run equals the run of that sample alone in an identically "
+              "parameterised batch-1 copy (8 neurons with adaptation frozen, 4 synapses incl. delayed reads, 4 connections "
+              "with/without delays, Serial/Biclique/RecurrentSerial, 9 trainers with batch_reduction=sum: batched parts == sum of "
+              "per-sample parts; the same components with the batch size reached through the batchsz setters after warm-up at other "
+              "sizes; 14 trainer configurations with sum and all hyperparameters given as per-cell overrides, several cells per "
+              "trainer).")
+LEVEL_NOTE = ("Not a proof about the code. Trusted: the other properties' models as readings of the code (their correspondence checks), "
+              "the comparison harness (tools/impl/c11_impl.py), float64, tolerance 1e-9 relative for continuous values (vectorised vs "
+              "scalar libm paths), spikes compared exactly. Axioms: none for the neuron (frozen) / synapse / connection / layer "
+              "obligations (closed under the global context, any number type); the standard-library real-number axioms for the "
+              "adaptation-coupling and trainer obligations. In the differential runs adaptation updates (documented batch reduction) "
+              "are frozen with adapt=False; mean/amax reductions of the trainers are not covered (sum only, as the property says).")
 EXPLANATION = LEVEL_TEXT
 IMPL = os.path.join(F.VERIF, "tools", "impl", "c11_impl.py")
 
